@@ -652,6 +652,22 @@ def scenario(rec, rng, cid):
     elif sc == "rater_arrays":
         from nanite.rate import get_rater
         from nanite.rate.rater import IndentationRater
+        # (somebody builds a rater with own regressor keywords first: the
+        #  documented defaults must stay what they are - judged by the
+        #  library-state comparison at the end of the shard and below)
+        from nanite.rate.regressors import reg_dict
+        from . import c09 as _c09
+        rname = sorted(_c09.CUSTOM_KW)[int(rng.integers(len(_c09.CUSTOM_KW)))]
+        d_before = core.fp_unordered(dict(reg_dict[rname][1]))
+        try:
+            get_rater(rname, training_set="zef18", **_c09.CUSTOM_KW[rname])
+        except BaseException:  # noqa
+            pass
+        rec.check(core.fp_unordered(dict(reg_dict[rname][1])) == d_before,
+                  "aliasing/regressor-defaults-updated-by-a-call",
+                  "get_rater(%r, **keywords) changed the documented default "
+                  "keywords of that regressor for every later caller"
+                  % rname, case)
         names = IndentationRater.get_feature_names(which_type="continuous")
         X = rng.uniform(0, 1, (60, len(names)))
         y = rng.integers(0, 11, 60).astype(float)
